@@ -1,15 +1,59 @@
 import KrroodVerif.Sexp
 import KrroodVerif.Model.Eql
 import KrroodVerif.Model.EqlFindings
+import KrroodVerif.Model.EqlSub
 import KrroodVerif.Drive.EqlParse
 namespace KrroodVerif.Drive.C01
 open KrroodVerif KrroodVerif.Eql KrroodVerif.Drive.EqlParse
+
+/-! ### nested sub-query operands: `(qx (sel …) (cond <xs>) (objs …) (doms …))` -/
+
+def parseOperand : Sexp → Option Operand
+  | .list [.atom "subq", i, y] => do pure (.sub (← i.asNat?) (← y.asNat?) none)
+  | .list [.atom "subq", i, y, c] => do pure (.sub (← i.asNat?) (← y.asNat?) (some (← parseSExpr c)))
+  | t => (parseTerm t).map Operand.plain
+
+partial def parseXS (s : Sexp) : Option XSExpr :=
+  match s with
+  | .list [.atom "cmpx", op, l, r] => do pure (.cmpX (← parseOp op) (← parseOperand l) (← parseOperand r))
+  | .list [.atom "and", l, r] => do pure (.and (← parseXS l) (← parseXS r))
+  | .list [.atom "or", l, r] => do pure (.or (← parseXS l) (← parseXS r))
+  | .list [.atom "not", e] => do pure (.not (← parseXS e))
+  | _ => (parseSExpr s).map XSExpr.base
+
+def xHasUnion : XExpr → Bool
+  | .base e => e.hasUnion
+  | .union _ _ => true
+  | .and l r | .elseIf l r => xHasUnion l || xHasUnion r
+  | .not e => xHasUnion e
+  | _ => false
+
+def xUnionUnderNot : XExpr → Bool
+  | .base e => e.unionUnderNot
+  | .not e => xHasUnion e || xUnionUnderNot e
+  | .and l r | .elseIf l r | .union l r => xUnionUnderNot l || xUnionUnderNot r
+  | _ => false
+
+def runX (items : List Sexp) : Option String := do
+  let sel ← (← Sexp.field? items "sel").mapM parseTerm
+  let c ← match Sexp.field? items "cond" with | some [e] => parseXS e | _ => none
+  let objs ← (← Sexp.field? items "objs").mapM parseObj
+  let doms ← (← Sexp.field? items "doms").mapM parseDom
+  let w : World := { objs := objs, doms := doms }
+  let x := buildX c
+  let m := evalQueryX w sel x
+  let sp := solutionsX w sel c
+  let vs := dedupNat (sel.flatMap Term.vars ++ c.freeVars)
+  let trig := (if xUnionUnderNot x then ["F-C01-1"] else []) ++
+    (if vs.any (fun v => (w.dom v).isEmpty) then ["F-C01-9"] else [])
+  pure s!"model={showSet m}\tspec={showSet sp}\ttrig={",".intercalate trig}"
 
 /-- `(sharednode)`: the fixed witness of F-C01-4 — `xf = x.f; and_(not_(xf), xf == False)` over three objects with
 `f = T, F, F`. One attribute node with two parents is outside the tree-shaped grammar the model covers, so the model
 makes no prediction (`*`); the specification is the first-order answer. -/
 def run (s : Sexp) : String :=
   if s == .list [.atom "sharednode"] then "model=*\tspec=(o1) (o2)\ttrig=F-C01-4" else
+  if let .list (.atom "qx" :: items) := s then (runX items).getD "error=bad-case" else
   match parseCase s with
   | none => "error=bad-case"
   | some (w, q) =>
